@@ -523,7 +523,7 @@ func offsetOf(doc []byte, line, col int) int {
 }
 
 func c11Search(s *Search) {
-	for i := uint64(0); s.More(); i++ {
+	for i := s.Base(); s.More(); i++ {
 		if !s.Mine(int(i)) {
 			continue
 		}
